@@ -22,7 +22,7 @@ import (
 func init() { register("C11", checkC11) }
 
 func checkC11(c *core.Ctx) {
-	c.Explainf("C11 (decided clause: the discipline of the pending 'next record' attributes; faithfulness of a parser as a whole is behaviour and is NOT decided). R1: for the definition loop of ReadFile and the member loops of readEnum/readStruct/readMessage/readUnion, the loop-carried locals that hold a pending attribute (comment lines, opcode, readonly, flags; per-member comment, tags, deprecation) form a typestate {clear, maybe-set}; on every CFG path (go/cfg, with refinement on `if v`/`if v != 0` guards, iterated to a fixpoint over the loop) an iteration that completed a definition reaches the loop head with every pending attribute clear — an attribute annotates one definition and no other. R1b: an iteration that matched a token but completed no definition does not clear a pending opcode/readonly/flags/deprecation (the attribute would be lost before its definition). R2: every definition kind either consumes or rejects each of opcode and flags (kind x attribute matrix). R3: evaluateBitflagExpr instantiates the evaluator with the integer type of exactly the signedness and width it dispatches on, and covers the image of decodeIntegerType. R4: skipFollowingWhitespace skips every byte the token tree treats as insignificant. R5: whether a member is deprecated is recorded by a pure flag set in the clause that called readDeprecated, never derived from the message text (`[deprecated(\"\")]` is well formed). R6: the tokenizer uses no bufio primitive bounded by the buffer size (ReadSlice outside a loop on ErrBufferFull, ReadLine, Peek of more than a 16-byte constant, Scanner): comments and literals have no length limit (positive control: fixtures/limitedread). R7: in numberToken's chain of byte classes, for every letter a-f/A-F and every assignment of the boolean locals with the hex flag(s) set, the first condition that holds is the hex-digit arm's (finite decision table over the conditions, the package's one-line predicates inlined). R8: every loop of parse_expr.go that looks for the `)` closing a group also looks at `(` and keeps a depth count. R9: every table from spellings to token kinds holds only the format's reserved words (a spec-side list). R10: a table the tokenizer indexes with an input byte is indexed with the byte itself (not masked or reduced modulo a constant) and, if an array, has 256 entries (positive control: fixtures/bytetable). R11: a strings/bytes trimming call in the parser or tokenizer that names '\\n' names '\\r' too, or the function trims '\\r' elsewhere (positive control: fixtures/lineend). NOT decided: token-to-field mapping, source order, layout independence beyond R4.")
+	c.Explainf("C11 (decided clause: the discipline of the pending 'next record' attributes; faithfulness of a parser as a whole is behaviour and is NOT decided). R1: for the definition loop of ReadFile and the member loops of readEnum/readStruct/readMessage/readUnion, the loop-carried locals that hold a pending attribute (comment lines, opcode, readonly, flags; per-member comment, tags, deprecation) form a typestate {clear, maybe-set}; on every CFG path (go/cfg, with refinement on `if v`/`if v != 0` guards, iterated to a fixpoint over the loop) an iteration that completed a definition reaches the loop head with every pending attribute clear — an attribute annotates one definition and no other. R1b: an iteration that matched a token but completed no definition does not clear a pending opcode/readonly/flags/deprecation (the attribute would be lost before its definition). R2: every definition kind either consumes or rejects each of opcode and flags (kind x attribute matrix). R3: evaluateBitflagExpr instantiates the evaluator with the integer type of exactly the signedness and width it dispatches on, and covers the image of decodeIntegerType. R4: skipFollowingWhitespace skips every byte the token tree treats as insignificant. R5: whether a member is deprecated is recorded by a pure flag set in the clause that called readDeprecated, never derived from the message text (`[deprecated(\"\")]` is well formed). R6: the tokenizer uses no bufio primitive bounded by the buffer size (ReadSlice outside a loop on ErrBufferFull, ReadLine, Peek of more than a 16-byte constant, Scanner), decides nothing on (*bufio.Reader).Buffered, and what ReadSlice/Peek hand out is only looked at or copied, never appended onto or stored: comments and literals have no length limit (positive control: fixtures/limitedread). R7: in numberToken's chain of byte classes, for every letter a-f/A-F and every assignment of the boolean locals with the hex flag(s) set, the first condition that holds is the hex-digit arm's (finite decision table over the conditions, the package's one-line predicates inlined). R8: every loop of parse_expr.go that looks for the `)` closing a group also looks at `(` and keeps a depth count. R9: every table from spellings to token kinds holds only the format's reserved words (a spec-side list). R10: a table the tokenizer indexes with an input byte is indexed with the byte itself (not masked or reduced modulo a constant) and, if an array, has 256 entries (positive control: fixtures/bytetable). R11: a strings/bytes trimming call in the parser or tokenizer that names '\\n' names '\\r' too, or the function trims '\\r' elsewhere (positive control: fixtures/lineend). R12: a local slice emptied for re-use with v = v[:0] is never stored by reference (in a composite literal, a field, an element) — only copied (positive control: fixtures/reusedslice). R13: the text of a token that expectNext required to be a string literal reaches the File through strconv.Unquote, never through a Trim of the quote characters. NOT decided: token-to-field mapping, source order, layout independence beyond R4.")
 	p := loadRepo(c)
 	if p == nil {
 		return
@@ -51,6 +51,232 @@ func checkC11(c *core.Ctx) {
 	reservedWordsAreTheFormats(c, p)
 	byteTablesAreInjective(c, p)
 	lineEndsAreTrimmedTogether(c, p)
+	scratchSlicesAreNotKept(c, p)
+	stringLiteralsAreUnquoted(c, p)
+}
+
+// scanReusedSlices: R12. A local slice that is emptied for re-use with
+// `v = v[:0]` keeps its backing array: whatever was stored *by reference*
+// before — the slice itself put into a composite literal, assigned to a field
+// or an element, or appended as one element — is overwritten by what is
+// appended next. Copies are fine (strings.Join, append(dst, v...), copy, a
+// conversion, ranging, indexing). In the parser that is how the tags of one
+// member turn into the tags of the next.
+func scanReusedSlices(info *types.Info, files []*ast.File, report func(fn, what string, pos token.Pos)) (reused int) {
+	for _, f := range files {
+		for _, d := range f.Decls {
+			fd, ok := d.(*ast.FuncDecl)
+			if !ok || fd.Body == nil {
+				continue
+			}
+			// slices truncated in place
+			trunc := map[types.Object]bool{}
+			ast.Inspect(fd.Body, func(n ast.Node) bool {
+				as, ok := n.(*ast.AssignStmt)
+				if !ok || len(as.Lhs) != len(as.Rhs) {
+					return true
+				}
+				for i, l := range as.Lhs {
+					lid, ok := ast.Unparen(l).(*ast.Ident)
+					if !ok {
+						continue
+					}
+					se, ok := ast.Unparen(as.Rhs[i]).(*ast.SliceExpr)
+					if !ok || se.Low != nil || se.High == nil {
+						continue
+					}
+					if k, isC := constInt(info, se.High); !isC || k != 0 {
+						continue
+					}
+					if xid, ok := ast.Unparen(se.X).(*ast.Ident); ok && info.ObjectOf(xid) == info.ObjectOf(lid) {
+						if _, isSlice := info.TypeOf(lid).Underlying().(*types.Slice); isSlice {
+							trunc[info.ObjectOf(lid)] = true
+						}
+					}
+				}
+				return true
+			})
+			if len(trunc) == 0 {
+				continue
+			}
+			reused += len(trunc)
+			isT := func(e ast.Expr) (types.Object, bool) {
+				id, ok := ast.Unparen(e).(*ast.Ident)
+				if !ok {
+					return nil, false
+				}
+				o := info.ObjectOf(id)
+				return o, trunc[o]
+			}
+			ast.Inspect(fd.Body, func(n ast.Node) bool {
+				switch x := n.(type) {
+				case *ast.CompositeLit:
+					for _, el := range x.Elts {
+						v := el
+						if kv, ok := el.(*ast.KeyValueExpr); ok {
+							v = kv.Value
+						}
+						if o, ok := isT(v); ok {
+							report(fd.Name.Name, o.Name()+" is put into "+wire.Canon(x.Type)+"{…} as it is and emptied with "+o.Name()+"[:0] for the next round: both share one backing array", v.Pos())
+						}
+					}
+				case *ast.AssignStmt:
+					if len(x.Lhs) != len(x.Rhs) {
+						return true
+					}
+					for i, r := range x.Rhs {
+						if o, ok := isT(r); ok {
+							switch ast.Unparen(x.Lhs[i]).(type) {
+							case *ast.SelectorExpr, *ast.IndexExpr, *ast.StarExpr:
+								report(fd.Name.Name, o.Name()+" is stored in "+wire.Canon(x.Lhs[i])+" as it is and emptied with "+o.Name()+"[:0] for the next round: both share one backing array", r.Pos())
+							}
+						}
+					}
+				case *ast.CallExpr:
+					if wire.Canon(x.Fun) == "append" && !x.Ellipsis.IsValid() {
+						for _, a := range x.Args[1:] {
+							if o, ok := isT(a); ok {
+								report(fd.Name.Name, o.Name()+" is appended as an element and emptied with "+o.Name()+"[:0] for the next round: both share one backing array", a.Pos())
+							}
+						}
+					}
+				}
+				return true
+			})
+		}
+	}
+	return reused
+}
+
+func scratchSlicesAreNotKept(c *core.Ctx, p *load.Prog) {
+	pkg := p.Bebop()
+	var files []*ast.File
+	for _, f := range pkg.Syntax {
+		switch filepath.Base(p.Fset.Position(f.Pos()).Filename) {
+		case "parse.go", "parse_expr.go", "tokenize.go", "token_tree.go", "eval_expr.go":
+			files = append(files, f)
+		}
+	}
+	n := scanReusedSlices(pkg.TypesInfo, files, func(fn, what string, pos token.Pos) {
+		c.Check("R12", fn+" does not keep a slice it re-uses", p.Pos(pos), false, what+": what the File holds for one definition is overwritten by the next")
+	})
+	c.Count("slices_emptied_for_reuse", n)
+	c.Check("R12", "no re-used scratch slice is kept by reference (scan complete)", "parse.go", true, "")
+	f, info, err := typeCheckFixture(c, "reusedslice")
+	if err != nil {
+		c.Undecide("positive control fixture reusedslice: %v", err)
+		return
+	}
+	hits := map[string]bool{}
+	scanReusedSlices(info, []*ast.File{f}, func(fn, what string, pos token.Pos) { hits[fn] = true })
+	for _, want := range []string{"keptInLiteral", "keptInField", "keptAsElement"} {
+		c.Check("R12", "positive control: "+want+" is recognised", "fixtures/reusedslice/fx.go", hits[want], "the rule no longer matches the shape it is meant to find")
+	}
+	for _, not := range []string{"joined", "spread", "fresh"} {
+		c.Check("R12", "positive control: "+not+" is not reported", "fixtures/reusedslice/fx.go", !hits[not], "")
+	}
+}
+
+// stringLiteralsAreUnquoted: R13. The tokenizer's string literals follow Go's
+// syntax (escapes included). Where the parser takes the text of a token that
+// expectNext required to be a string literal, that text reaches the File
+// through strconv.Unquote — cutting the quote characters off with a Trim
+// leaves the escapes undecoded and eats an escaped quote at the end.
+func stringLiteralsAreUnquoted(c *core.Ctx, p *load.Prog) {
+	pkg := p.Bebop()
+	info := pkg.TypesInfo
+	n := 0
+	for _, fd := range funcsOfFiles(p, pkg, "parse.go", "parse_expr.go") {
+		// toks, err := expectNext(tr, k0, k1, …): positions required to be string literals
+		lit := map[types.Object]map[int]bool{}
+		ast.Inspect(fd.Body, func(nd ast.Node) bool {
+			as, ok := nd.(*ast.AssignStmt)
+			if !ok || len(as.Rhs) != 1 || len(as.Lhs) < 1 {
+				return true
+			}
+			call, ok := ast.Unparen(as.Rhs[0]).(*ast.CallExpr)
+			if !ok || wire.Canon(call.Fun) != "expectNext" || call.Ellipsis.IsValid() {
+				return true
+			}
+			id, ok := ast.Unparen(as.Lhs[0]).(*ast.Ident)
+			if !ok || id.Name == "_" {
+				return true
+			}
+			for i, a := range call.Args[1:] {
+				if wire.Canon(a) == "tokenKindStringLiteral" {
+					o := info.ObjectOf(id)
+					if lit[o] == nil {
+						lit[o] = map[int]bool{}
+					}
+					lit[o][i] = true
+				}
+			}
+			return true
+		})
+		if len(lit) == 0 {
+			continue
+		}
+		// every use toks[i].concrete with i a literal position
+		var stack []ast.Node
+		ast.Inspect(fd.Body, func(nd ast.Node) bool {
+			if nd == nil {
+				stack = stack[:len(stack)-1]
+				return true
+			}
+			stack = append(stack, nd)
+			sel, ok := nd.(*ast.SelectorExpr)
+			if !ok || sel.Sel.Name != "concrete" {
+				return true
+			}
+			ix, ok := ast.Unparen(sel.X).(*ast.IndexExpr)
+			if !ok {
+				return true
+			}
+			id, ok := ast.Unparen(ix.X).(*ast.Ident)
+			if !ok {
+				return true
+			}
+			k, isC := constInt(info, ix.Index)
+			if !isC || !lit[info.ObjectOf(id)][k] {
+				return true
+			}
+			n++
+			// outwards: conversions, then the call that takes the text
+			verdict := "other"
+			for i := len(stack) - 2; i >= 0; i-- {
+				call, isCall := stack[i].(*ast.CallExpr)
+				if !isCall {
+					if _, isParen := stack[i].(*ast.ParenExpr); isParen {
+						continue
+					}
+					break
+				}
+				if tv := info.Types[call.Fun]; tv.IsType() {
+					continue
+				}
+				fn := wire.Canon(call.Fun)
+				switch {
+				case fn == "strconv.Unquote":
+					verdict = "unquote"
+				case strings.HasPrefix(fn, "strings.Trim") || strings.HasPrefix(fn, "bytes.Trim"):
+					verdict = "trim"
+				}
+				break
+			}
+			key := fmt.Sprintf("%s decodes the string literal %s with strconv.Unquote", fd.Name.Name, wire.Canon(ix))
+			switch verdict {
+			case "unquote":
+				c.Check("R13", key, p.Pos(sel.Pos()), true, "")
+			case "trim":
+				c.Check("R13", key, p.Pos(sel.Pos()), false, "the quotes are cut off with a Trim: escape sequences in the literal stay undecoded, and a literal ending in an escaped quote loses it and keeps the backslash")
+			default:
+				// stored raw, compared, measured: nothing to decode here
+			}
+			return true
+		})
+	}
+	c.Count("string_literal_text_sites", n)
+	c.Floor("string_literal_text_sites", 2)
 }
 
 // scanByteTables: R10. A table the tokenizer indexes with an input byte tells
@@ -560,6 +786,12 @@ func pendingTypestate(c *core.Ctx, p *load.Prog, fd *ast.FuncDecl, fname string)
 		}
 		if id, ok := e.(*ast.Ident); ok && id.Name == "nil" {
 			return true
+		}
+		// x[:0] holds nothing either (what it shares with the old x is R12's business)
+		if se, ok := e.(*ast.SliceExpr); ok && se.Low == nil && se.High != nil && !se.Slice3 {
+			if k, isC := constInt(info, se.High); isC && k == 0 {
+				return true
+			}
 		}
 		return false
 	}
@@ -1104,8 +1336,20 @@ func scanLimitedBufio(info *types.Info, files []*ast.File, report func(fn, what 
 									if k, isC := constInt(info, y.Args[0]); isC && k >= 0 && k <= 16 {
 										break
 									}
+									// Peek(r.Buffered()) asks for what is there: it cannot fail
+									// for size (what it does depend on is reported below)
+									if bc, ok := ast.Unparen(y.Args[0]).(*ast.CallExpr); ok {
+										if bcal := load.Callee(info, bc); bcal != nil && bcal.Name() == "Buffered" {
+											break
+										}
+									}
 								}
 								report(fd.Name.Name, "(*bufio.Reader)."+callee.Name(), y.Pos())
+							case "Buffered":
+								// how much happens to be buffered depends on how the underlying
+								// reader delivered its data: any decision taken on it makes the
+								// result depend on read fragmentation
+								report(fd.Name.Name, "(*bufio.Reader).Buffered", y.Pos())
 							}
 						}
 					} else if callee.Name() == "NewScanner" {
@@ -1121,8 +1365,20 @@ func scanLimitedBufio(info *types.Info, files []*ast.File, report func(fn, what 
 func limitedBufio(c *core.Ctx, p *load.Prog, rule string) {
 	pkg := p.Bebop()
 	scanLimitedBufio(pkg.TypesInfo, pkg.Syntax, func(fn, what string, pos token.Pos) {
+		if strings.HasSuffix(what, ".Buffered") {
+			c.Check(rule, fn+" decides nothing on how much is buffered", p.Pos(pos), false,
+				what+" reports what the underlying reader happened to deliver so far — zero is not the end of the input: the File then depends on how reads are fragmented (a one-byte-at-a-time reader, a comment ending on a buffer boundary)")
+			return
+		}
 		c.Check(rule, fn+" reads input through "+what, p.Pos(pos), false,
 			what+" is bounded by the buffer size (4096 bytes by default): a comment, literal or line longer than that makes ReadFile fail or split a token on a well-formed schema")
+	})
+	scanBufioViews(pkg.TypesInfo, pkg.Syntax, func(fn, what string, pos token.Pos, unsure bool) {
+		if unsure {
+			c.Undecide("C11/R6v: in %s at %s %s", fn, p.Pos(pos), what)
+			return
+		}
+		c.Check(rule, fn+" copies what ReadSlice/Peek hand out before reading on", p.Pos(pos), false, what)
 	})
 	c.Check(rule, "the tokenizer uses no buffer-limited bufio primitive (scan complete)", "tokenize.go", true, "")
 	// positive control
@@ -1140,10 +1396,144 @@ func limitedBufio(c *core.Ctx, p *load.Prog, rule string) {
 	}
 	hits := map[string]bool{}
 	scanLimitedBufio(info, []*ast.File{f}, func(fn, what string, pos token.Pos) { hits[fn] = true })
-	for _, want := range []string{"slice", "line", "peek", "scanner"} {
+	for _, want := range []string{"slice", "line", "peek", "scanner", "buffered"} {
 		c.Check(rule, "positive control: "+want+" is recognised", "fixtures/limitedread/fx.go", hits[want], "the rule no longer matches the shape it is meant to find")
 	}
 	c.Check(rule, "positive control: ReadBytes is not reported", "fixtures/limitedread/fx.go", !hits["unlimited"], "")
+	c.Check(rule, "positive control: a chunked ReadSlice read is not reported as bounded", "fixtures/limitedread/fx.go", !hits["chunkedKept"] && !hits["chunkedCopied"], "")
+	views := map[string]bool{}
+	scanBufioViews(info, []*ast.File{f}, func(fn, what string, pos token.Pos, unsure bool) {
+		if !unsure {
+			views[fn] = true
+		}
+	})
+	c.Check(rule, "positive control: a ReadSlice result appended onto is recognised", "fixtures/limitedread/fx.go", views["chunkedKept"], "the rule no longer matches the shape it is meant to find")
+	c.Check(rule, "positive control: a ReadSlice result stored is recognised", "fixtures/limitedread/fx.go", views["stored"], "the rule no longer matches the shape it is meant to find")
+	c.Check(rule, "positive control: copied ReadSlice/Peek results are not reported", "fixtures/limitedread/fx.go", !views["chunkedCopied"] && !views["peekFirst"], "")
+}
+
+// scanBufioViews: what (*bufio.Reader).ReadSlice and Peek return is a view of
+// the reader's own buffer, valid until the next read. A function may look at it
+// (index, len, range, compare, convert to string) and copy it (append(dst,
+// v...), copy(dst, v)); appending *onto* it writes into bufio's buffer and
+// keeps a slice the next read overwrites, and so does storing it in a field,
+// a composite literal or another element. Returning it or handing it to a
+// function outside bytes/strings is left undecided.
+func scanBufioViews(info *types.Info, files []*ast.File, report func(fn, what string, pos token.Pos, unsure bool)) {
+	for _, f := range files {
+		for _, d := range f.Decls {
+			fd, ok := d.(*ast.FuncDecl)
+			if !ok || fd.Body == nil {
+				continue
+			}
+			views := map[types.Object]string{}
+			ast.Inspect(fd.Body, func(n ast.Node) bool {
+				as, ok := n.(*ast.AssignStmt)
+				if !ok || len(as.Rhs) != 1 || len(as.Lhs) < 1 {
+					return true
+				}
+				call, ok := ast.Unparen(as.Rhs[0]).(*ast.CallExpr)
+				if !ok {
+					return true
+				}
+				callee := load.Callee(info, call)
+				if callee == nil || callee.Pkg() == nil || callee.Pkg().Path() != "bufio" || (callee.Name() != "ReadSlice" && callee.Name() != "Peek") {
+					return true
+				}
+				if sig, ok := callee.Type().(*types.Signature); !ok || sig.Recv() == nil || !strings.HasSuffix(sig.Recv().Type().String(), "bufio.Reader") {
+					return true
+				}
+				if id, ok := ast.Unparen(as.Lhs[0]).(*ast.Ident); ok && id.Name != "_" {
+					views[info.ObjectOf(id)] = callee.Name()
+				}
+				return true
+			})
+			if len(views) == 0 {
+				continue
+			}
+			var stack []ast.Node
+			ast.Inspect(fd.Body, func(n ast.Node) bool {
+				if n == nil {
+					stack = stack[:len(stack)-1]
+					return true
+				}
+				stack = append(stack, n)
+				id, ok := n.(*ast.Ident)
+				if !ok {
+					return true
+				}
+				prim, isView := views[info.ObjectOf(id)]
+				if !isView || info.Defs[id] != nil {
+					return true
+				}
+				// climb through parentheses and reslicing (a sub-slice is the same view)
+				i := len(stack) - 2
+				var child ast.Node = id
+				for i >= 0 {
+					switch p := stack[i].(type) {
+					case *ast.ParenExpr:
+						child = p
+						i--
+						continue
+					case *ast.SliceExpr:
+						if p.X == child {
+							child = p
+							i--
+							continue
+						}
+					}
+					break
+				}
+				if i < 0 {
+					return true
+				}
+				what := "the slice " + id.Name + " that " + prim + " returned"
+				switch p := stack[i].(type) {
+				case *ast.IndexExpr, *ast.RangeStmt, *ast.BinaryExpr, *ast.SliceExpr:
+					// looked at (a SliceExpr here means id is a bound, not the operand)
+				case *ast.AssignStmt:
+					for k, l := range p.Lhs {
+						if l == child {
+							return true // redefined
+						}
+						if k < len(p.Rhs) && p.Rhs[k] == child {
+							switch ast.Unparen(l).(type) {
+							case *ast.SelectorExpr, *ast.IndexExpr, *ast.StarExpr:
+								report(fd.Name.Name, what+" is stored in "+wire.Canon(l)+": it is a view of the reader's buffer, which the next read overwrites", id.Pos(), false)
+							default:
+								report(fd.Name.Name, what+" is assigned to "+wire.Canon(l)+" (how that is used is not followed)", id.Pos(), true)
+							}
+						}
+					}
+				case *ast.KeyValueExpr, *ast.CompositeLit:
+					report(fd.Name.Name, what+" is put into a composite literal: it is a view of the reader's buffer, which the next read overwrites", id.Pos(), false)
+				case *ast.ReturnStmt:
+					report(fd.Name.Name, what+" is returned (what the caller does with it is not followed)", id.Pos(), true)
+				case *ast.CallExpr:
+					fn := wire.Canon(p.Fun)
+					switch {
+					case info.Types[p.Fun].IsType(), fn == "len", fn == "cap":
+					case fn == "copy":
+						if len(p.Args) == 2 && p.Args[0] == child {
+							report(fd.Name.Name, what+" is copied into: that writes into the reader's buffer", id.Pos(), false)
+						}
+					case fn == "append":
+						if len(p.Args) >= 1 && p.Args[0] == child {
+							report(fd.Name.Name, what+" is appended onto: the result still starts in the reader's own buffer, which the next read overwrites (and the append may write into it)", id.Pos(), false)
+						} else if !(p.Ellipsis.IsValid() && p.Args[len(p.Args)-1] == child) {
+							report(fd.Name.Name, what+" is appended as an element: it is a view of the reader's buffer", id.Pos(), false)
+						}
+					case strings.HasPrefix(fn, "bytes.") && fn != "bytes.NewReader" && fn != "bytes.NewBuffer", strings.HasPrefix(fn, "utf8."), strings.HasPrefix(fn, "unicode."):
+					default:
+						report(fd.Name.Name, what+" is handed to "+fn+" (whether that keeps it is not followed)", id.Pos(), true)
+					}
+				default:
+					_ = p
+				}
+				return true
+			})
+		}
+	}
 }
 
 // hexLettersAreDigits: R7. In a hexadecimal literal the letters a-f and A-F
@@ -1644,6 +2034,79 @@ func reservedWordsAreTheFormats(c *core.Ctx, p *load.Prog) {
 // error with bufio.ErrBufferFull.
 func loopsOnBufferFull(info *types.Info, fd *ast.FuncDecl, call *ast.CallExpr) bool {
 	found := false
+	mentionsFull := func(n ast.Node) bool {
+		hit := false
+		ast.Inspect(n, func(m ast.Node) bool {
+			if sel, ok := m.(*ast.SelectorExpr); ok && sel.Sel.Name == "ErrBufferFull" {
+				if id, ok := sel.X.(*ast.Ident); ok {
+					if pn, ok := info.ObjectOf(id).(*types.PkgName); ok && pn.Imported().Path() == "bufio" {
+						hit = true
+					}
+				}
+			}
+			return !hit
+		})
+		return hit
+	}
+	// the first piece read just ahead of the loop that fetches the others:
+	// x, err := r.ReadSlice(d); for err == bufio.ErrBufferFull { …ReadSlice… }
+	ast.Inspect(fd.Body, func(n ast.Node) bool {
+		blk, ok := n.(*ast.BlockStmt)
+		if !ok {
+			return true
+		}
+		for i, st := range blk.List {
+			if !(st.Pos() <= call.Pos() && call.End() <= st.End()) || i+1 >= len(blk.List) {
+				continue
+			}
+			if _, isFor := st.(*ast.ForStmt); isFor {
+				continue
+			}
+			// the loop may be separated from the first read by statements that
+			// do not read (the copy of the first piece)
+			j := i + 1
+			for j < len(blk.List) {
+				if _, isFor := blk.List[j].(*ast.ForStmt); isFor {
+					break
+				}
+				reads := false
+				ast.Inspect(blk.List[j], func(m ast.Node) bool {
+					if c2, ok := m.(*ast.CallExpr); ok {
+						if cal := load.Callee(info, c2); cal != nil && cal.Pkg() != nil && cal.Pkg().Path() == "bufio" {
+							reads = true
+						}
+					}
+					return true
+				})
+				if reads {
+					j = len(blk.List)
+					break
+				}
+				j++
+			}
+			if j >= len(blk.List) {
+				continue
+			}
+			if loop, ok := blk.List[j].(*ast.ForStmt); ok && loop.Cond != nil && mentionsFull(loop.Cond) {
+				again := false
+				ast.Inspect(loop.Body, func(m ast.Node) bool {
+					if c2, ok := m.(*ast.CallExpr); ok {
+						if cal := load.Callee(info, c2); cal != nil && cal.Name() == "ReadSlice" {
+							again = true
+						}
+					}
+					return true
+				})
+				if again {
+					found = true
+				}
+			}
+		}
+		return true
+	})
+	if found {
+		return true
+	}
 	ast.Inspect(fd.Body, func(n ast.Node) bool {
 		loop, ok := n.(*ast.ForStmt)
 		if !ok || !(loop.Pos() <= call.Pos() && call.End() <= loop.End()) {
